@@ -7,8 +7,8 @@ from . import common, orch, bare
 ID = "C18"
 ENGINE = "B"
 PRIOS = (5, 10, 15, 19, 20)
-RULE = ("one receiving Agent with 1..3 recorder computations (one of them registered late, on the "
-        "agent thread), 2..4 poster threads calling the agent's Messaging.post_msg as "
+RULE = ("one receiving Agent with 1..4 recorder computations (up to two of them registered late, "
+        "one after the other, on the agent thread), 2..4 poster threads calling the agent's Messaging.post_msg as "
         "InProcessCommunicationLayer.receive_msg does from foreign agent threads, plus posts "
         "made on the agent's own thread; priorities from {5,10,15,19,20}; clean_shutdown() at a "
         "tape-chosen instant then join(); opcode-level pre-emption inside Messaging.post_msg and "
@@ -21,6 +21,8 @@ RULE = ("one receiving Agent with 1..3 recorder computations (one of them regist
 def generate(rng, tier):
     n_posters = rng.randint(2, 4)
     dests = ["R1"] + (["R2"] if rng.random() < 0.6 else []) + (["L"] if rng.random() < 0.6 else [])
+    if "L" in dests and rng.random() < 0.5:
+        dests.append("L2")          # a second destination that registers late, after the first
     posters = []
     serial = 0
     for p in range(n_posters):
@@ -38,10 +40,10 @@ def generate(rng, tier):
     if rng.random() < 0.3:
         for _ in range(rng.randint(1, 3)):
             serial += 1
-            burst.append([rng.choice([d for d in dests if d != "L"]), rng.choice(PRIOS), serial])
+            burst.append([rng.choice([d for d in dests if d[0] != "L"]), rng.choice(PRIOS), serial])
     return {"posters": posters, "local": local, "dests": dests, "last_burst": burst,
             "periodic": rng.random() < 0.5,
-            "late_after": rng.randint(0, 6), "shutdown_after": rng.choice([None, None, 3, 8, 15]),
+            "late_after": rng.randint(0, 6), "late_after2": rng.randint(0, 12), "shutdown_after": rng.choice([None, None, 3, 8, 15]),
             "opcode_p": rng.choice([0.0, 0.05, 0.2]), "line_p": rng.choice([0.0, 0.02, 0.1])}
 
 
@@ -123,7 +125,7 @@ def execute(case, tape):
                     H.append(("registered", name, ev()))
                 return fn
             for d in case["dests"]:
-                if d != "L":
+                if d[0] != "L":
                     b.on_agent("A", register(d))
             b.drain()
             posted = [0]
@@ -153,6 +155,10 @@ def execute(case, tape):
                 sim.block(lambda: posted[0] >= case["late_after"] or
                           all(t.state == threadsim.DONE for t in threads), 100.0)
                 b.on_agent("A", register("L"))
+            if "L2" in case["dests"]:
+                sim.block(lambda: posted[0] >= case.get("late_after2", 0) or
+                          all(t.state == threadsim.DONE for t in threads), 100.0)
+                b.on_agent("A", register("L2"))
             if case["shutdown_after"] is None:
                 for t in threads:
                     t.join()
@@ -203,7 +209,7 @@ def execute(case, tape):
         out["violations"].append(common.violation(viol[0], viol[1], **dict(feats, **viol[2])))
     handled = sum(1 for h in H if h[0] == "handle")
     out["stats"]["messages_handled"] += handled
-    out["stats"]["late_registrations"] += 1 if "L" in case["dests"] else 0
+    out["stats"]["late_registrations"] += sum(1 for d in case["dests"] if d[0] == "L")
     out["nontrivial"] = handled >= 6 and (sim.stats["opcode_preemptions"] +
                                           sim.stats["preemptions"] + sim.stats["handoffs"]) > 10
     return out
@@ -236,6 +242,14 @@ def check_history(H, case):
             shutdown = h[1]
         elif k == "agent_exit":
             exit_ = h[1]
+    def races(serial, dest):
+        """the post call overlaps the registration of its destination (the window in which the
+        un-registered path and the registration callback can interleave)"""
+        if dest not in registered:
+            return False
+        return post_call[serial] < reg_done.get(dest, 1 << 60) and \
+            post_ret.get(serial, 1 << 60) > registered[dest]
+
     # exactly once
     for serial, (sender, dest, prio) in info.items():
         n = len(handles[serial])
@@ -248,7 +262,8 @@ def check_history(H, case):
             late = post_call[serial] < reg_done[dest]
             return ("delivered", f"message {serial} ({sender}->{dest}, type {prio}) was posted "
                     f"(call returned at event {post_ret[serial]}, shutdown called at {shutdown}) "
-                    f"but never handled", {"to_late_dest": late, "from": sender.rstrip("0123456789")})
+                    f"but never handled", {"to_late_dest": late, "from": sender.rstrip("0123456789"),
+                                           "races_with_registration": races(serial, dest)})
         if n == 1:
             when, comp, thread = handles[serial][0]
             if comp != dest:
@@ -287,10 +302,12 @@ def check_history(H, case):
         order = [h for _, h, _ in lst]
         if order != sorted(order):
             late = any(post_call[s] < reg_done.get(key[2], 0) for _, _, s in lst)
+            racing = any(races(s, key[2]) for _, _, s in lst)
             return ("fifo_per_sender", f"messages of {key[0]} (type {key[1]}, to {key[2]}) posted "
                     f"in order {[s for _, _, s in lst]} were handled in order "
                     f"{[s for _, _, s in sorted(lst, key=lambda x: x[1])]}",
-                    {"to_late_dest": late, "from": key[0].rstrip("0123456789")})
+                    {"to_late_dest": late, "from": key[0].rstrip("0123456789"),
+                     "races_with_registration": racing})
     return None
 
 
